@@ -1,6 +1,7 @@
 """C10 — Dilation delivers every record exactly once, in order, across reconnects.
 
-Two REAL `Manager`s (A = leader, B = follower) with their real `Outbound`, `Inbound`, `SubChannel`s and
+Two REAL wormholes built by the PUBLIC entry point `wormhole.create(…, dilation=True).dilate()` (defaults), i.e.
+Boss -> Dilator -> two REAL `Manager`s (A = leader, B = follower) with their real `Outbound`, `Inbound`, `SubChannel`s and
 `SubchannelDemultiplex`; the application on the receiving side is a listening `IHalfCloseableProtocol`
 factory that may be registered LATE (after the peer has opened subchannels and written to them).
 Two worlds join the Managers:
@@ -22,7 +23,11 @@ from twisted.internet.interfaces import IHalfCloseableProtocol, ITransport, ICon
 from twisted.internet.task import Clock, Cooperator
 from zope.interface import alsoProvides, implementer
 
+import wormhole
+from wormhole import _rendezvous
 from wormhole._dilation import connector as dconn
+from wormhole._dilation.roles import LEADER
+from twisted.internet import defer
 from wormhole._dilation.connection import (Open, Data, Close, Ack, KCM, parse_record, NOISE_MAX_CIPHERTEXT)
 from wormhole._dilation.manager import Manager, DILATION_VERSIONS
 from wormhole._interfaces import ISend
@@ -63,6 +68,10 @@ class TurnFailed(Exception):
 ID = "C10"
 PROP_MODULES = ["WV.Props.C10"]
 TRUSTED = [
+    "below the Manager's ISend the mailbox connection is a stub (ClientService replaced inside the harness process): the "
+    "dilation key, the peer's versions and its PLEASE are handed to the Manager built by wormhole.create().dilate() "
+    "directly (the mailbox protocol and key agreement are C01–C03/C09's subject); listeners are registered through "
+    "Manager._register_subprotocol_factory, the body of SubchannelListenerEndpoint.listen",
     "L2 connection = authenticated FIFO of whole records (C12): loss points are record boundaries (a partially "
     "received frame is never a record); in world l2 the real DilatedConnectionProtocol/_Record/_Framer carry the "
     "records over ToyNoise (noiseprotocol is not installed), whole frames per delivery",
@@ -354,6 +363,22 @@ class Link:
 
 # ---------------------------------------------------------------------------
 
+class _StubService:
+    """stands in for twisted.application.internet.ClientService under RendezvousConnector: never connects"""
+
+    def __init__(self, ep, factory, *a, **kw):
+        pass
+
+    def startService(self):
+        pass
+
+    def stopService(self):
+        return defer.succeed(None)
+
+    def whenConnected(self, failAfterFailures=None):
+        return defer.Deferred()
+
+
 class SideH:
     def __init__(self, name, leader):
         self.name = name
@@ -361,13 +386,20 @@ class SideH:
         self.clock = Clock()
         self.eq = EventualQueue(self.clock)
         self.coop = Cooperator(terminationPredicateFactory=lambda: (lambda: True), scheduler=self.eq.eventually)
-        self.send = mock.Mock()
-        alsoProvides(self.send, ISend)
-        my, their = ("bb", "aa") if leader else ("aa", "bb")
-        m = Manager(self.send, my, None, self.clock, self.eq, self.coop, DILATION_VERSIONS, 30.0, None)
+        # the Manager is built by the PUBLIC entry point, with its defaults: wormhole.create(…, dilation=True).dilate()
+        # -> Boss.dilate -> Dilator.dilate -> Manager(…).  The mailbox connection below it is a stub (the mailbox
+        # protocol is C01–C03/C09's subject): key, versions and the peer's PLEASE are handed to the Manager directly
+        with mock.patch.object(_rendezvous.internet, "ClientService", _StubService):
+            self.wormhole = wormhole.create("verif.c10/harness", "ws://127.0.0.1:4000/v1", self.clock,
+                                            dilation=True, _eventual_queue=self.eq)
+        self.api = self.wormhole.dilate()
+        m = self.wormhole._boss._D._manager
+        assert m._api is self.api
         m.got_dilation_key(b"\x00" * 32)
         m.got_wormhole_versions({"can-dilate": ["ged"]})
-        m.rx_PLEASE({"side": their})          # -> CONNECTING
+        # roles: dilation sides are random hex strings; A's peer claims the lowest possible side, B's the highest
+        m.rx_PLEASE({"side": "0" * 16 if leader else "z" * 16})          # -> CONNECTING
+        assert (m._my_role is LEADER) == leader
         self.mgr = m
         self.ob = m._outbound
         self.ib = m._inbound
